@@ -166,12 +166,15 @@ Proof.
     rewrite (IH fuel rest acc H2) by lia. reflexivity || (f_equal; lia).
 Qed.
 
-Lemma linebreak_lines ls : forall fuel rest acc,
-  forallb lline_ok ls = true -> line_start rest = true -> (length (llines_text ls) < fuel)%nat ->
-  linebreak fuel (llines_text ls ++ rest) acc = (acc ++ llines_comments ls, rest).
+Lemma linebreak_lines ls : forall fuel bs rest acc,
+  forallb lline_ok ls = true -> forallb is_blank bs = true -> line_start rest = true ->
+  (length (llines_text ls) + length bs < fuel)%nat ->
+  linebreak fuel (llines_text ls ++ bs ++ rest) acc = (acc ++ llines_comments ls, rest).
 Proof.
-  induction ls as [|l ls IH]; intros fuel rest acc Hok Hr Hf; cbn [llines_text llines_comments flat_map app].
-  - rewrite app_nil_r. destruct fuel as [|fuel]; [cbn in Hf; lia|]. apply linebreak_stop, Hr.
+  induction ls as [|l ls IH]; intros fuel bs rest acc Hok Hbs Hr Hf; cbn [llines_text llines_comments flat_map app].
+  - rewrite app_nil_r. cbn [length Nat.add] in Hf. destruct fuel as [|fuel]; [lia|]. replace (S fuel) with (fuel + 1)%nat by lia.
+    rewrite (linebreak_blanks bs) by (try assumption; lia).
+    remember (fuel + 1 - length bs)%nat as f1. destruct f1 as [|f1]; [lia|]. apply linebreak_stop, Hr.
   - cbn [forallb] in Hok. apply andb_true_iff in Hok as [Hl Hls]. unfold lline_ok in Hl. apply andb_true_iff in Hl as [Hb Hc].
     change (flat_map lline_text ls) with (llines_text ls).
     change (flat_map (fun l0 : lline => match ll_comment l0 with Some t => [t] | None => [] end) ls) with (llines_comments ls).
@@ -185,11 +188,11 @@ Proof.
       rewrite (span_line_comment t _ Hc).
       destruct f1 as [|f2]; [lia|]. cbn [linebreak].
       change (is_blank 10) with false. change (10 =? 10) with true. cbn [orb].
-      rewrite (IH f2 rest (acc ++ [t]) Hls Hr) by lia.
+      rewrite (IH f2 bs rest (acc ++ [t]) Hls Hbs Hr) by lia.
       rewrite <- app_assoc. reflexivity.
     + remember (fuel + 1 - length (ll_blanks l))%nat as f1. destruct f1 as [|f1]; [lia|]. cbn [linebreak].
       change (is_blank 10) with false. change (10 =? 10) with true. cbn [orb].
-      rewrite (IH f1 rest acc Hls Hr) by lia. reflexivity.
+      rewrite (IH f1 bs rest acc Hls Hbs Hr) by lia. reflexivity.
 Qed.
 
 (** Blanks, tabs and line continuations between two tokens of a line only separate them. *)
@@ -208,17 +211,59 @@ Proof.
   apply negb_true_iff in H2, H3. rewrite H3, H2. reflexivity.
 Qed.
 
-(** A comment before the newline, and any number of blank or comment lines after it, end the line
-    and are returned, each once and in order, with their text; the next line starts at its first token. *)
+(** A comment before the newline, and any number of blank or comment lines after it (and the
+    indentation of the next line), end the line and are returned, each once and in order, with their
+    text; the next line starts at its first token. *)
 Theorem line_layout_inert l c ls bs rest :
   forallb inl_ok l = true -> forallb (fun x => negb (x =? 10)) c = true ->
-  forallb lline_ok ls = true -> forallb is_blank bs = true -> line_start rest = true -> rest <> [] ->
+  forallb lline_ok ls = true -> forallb is_blank bs = true -> line_start rest = true ->
   scan_gap (inls_text l ++ 35 :: c ++ 10 :: llines_text ls ++ bs ++ rest) = (GLine (c :: llines_comments ls), rest).
 Proof.
-  intros Hok Hc Hls Hbs Hr Hne. unfold scan_gap.
+  intros Hok Hc Hls Hbs Hr. unfold scan_gap.
   rewrite (skip_inline_layout l false _ Hok) by reflexivity.
   change (35 =? 35) with true. cbv iota. rewrite (span_line_comment c _ Hc).
-  pose proof (linebreak_lines (ls ++ [mkLine bs None]) (S (length (llines_text ls ++ bs ++ rest))) rest [c]) as H.
-  unfold llines_text in H at 2. rewrite flat_map_app in H. cbn [flat_map] in H. unfold lline_text in H at 2. cbn [ll_blanks ll_comment app] in H.
-  fold (llines_text ls) in H. rewrite app_nil_r in H.
-Abort.
+  rewrite (linebreak_lines ls _ bs rest [c] Hls Hbs Hr) by (rewrite !app_length; lia). reflexivity.
+Qed.
+
+(** The same without a comment on the first line. *)
+Theorem newline_layout_inert l ls bs rest :
+  forallb inl_ok l = true -> forallb lline_ok ls = true -> forallb is_blank bs = true -> line_start rest = true ->
+  scan_gap (inls_text l ++ 10 :: llines_text ls ++ bs ++ rest) = (GLine (llines_comments ls), rest).
+Proof.
+  intros Hok Hls Hbs Hr. unfold scan_gap.
+  rewrite (skip_inline_layout l false _ Hok) by reflexivity.
+  change (10 =? 35) with false. change (10 =? 10) with true. cbv iota.
+  rewrite (linebreak_lines ls _ bs rest [] Hls Hbs Hr) by (rewrite !app_length; lia). reflexivity.
+Qed.
+
+(** Where the grammar has a line break (after && || |): any number of blank or comment lines, then
+    blanks, then line continuations and blanks, are skipped; the comments are returned; the command
+    continues at the next token.  (A line continuation followed by an empty line is not of this
+    shape: known finding F45.) *)
+Theorem linebreak_layout_inert ls bs l rest :
+  forallb lline_ok ls = true -> forallb is_blank bs = true -> forallb inl_ok l = true -> token_start rest = true ->
+  match l with IBlank _ :: _ => False | _ => True end ->
+  scan_linebreak (llines_text ls ++ bs ++ inls_text l ++ rest) = LOk (llines_comments ls) rest.
+Proof.
+  intros Hls Hbs Hok Hr Hshape. unfold scan_linebreak.
+  assert (Hni : not_inline rest = true).
+  { destruct rest as [|c r]; [reflexivity|]. cbn [token_start not_inline] in *.
+    apply andb_true_iff in Hr as [H123 H4]. apply andb_true_iff in H123 as [H12 H3]. apply andb_true_iff in H12 as [H1 H2].
+    rewrite H1, H4. reflexivity. }
+  assert (Hstart : line_start (inls_text l ++ rest) = true).
+  { destruct l as [|[c|] l']; [|contradiction|reflexivity]. cbn [inls_text flat_map app].
+    destruct rest as [|c r]; [reflexivity|]. cbn [token_start line_start] in *.
+    apply andb_true_iff in Hr as [H123 H4]. exact H123. }
+  rewrite (linebreak_lines ls _ bs (inls_text l ++ rest) [] Hls Hbs Hstart) by (rewrite !app_length; lia). cbn [app].
+  rewrite (skip_inline_layout l false rest Hok Hni). destruct rest as [|c r]; [discriminate|]. cbn [token_start] in Hr.
+  apply andb_true_iff in Hr as [H123 H4]. apply andb_true_iff in H123 as [H12 H3]. apply andb_true_iff in H12 as [H1 H2].
+  apply negb_true_iff in H2, H3. rewrite H2, H3. reflexivity.
+Qed.
+
+(** Non-vacuity: "a \<nl>\t b", "a # c<nl><nl>  # d<nl> b", and the line break after an operator. *)
+Example layout_examples :
+  scan_gap [32; 92; 10; 9; 32; 98] = (GBlank, [98]) /\
+  scan_gap [32; 35; 32; 99; 10; 10; 32; 32; 35; 100; 10; 32; 98] = (GLine [[32; 99]; [100]], [98]) /\
+  scan_linebreak [32; 35; 99; 10; 10; 9; 92; 10; 32; 98] = LOk [[99]] [98] /\
+  scan_linebreak [32; 92; 10; 10; 98] = LEnded [].
+Proof. vm_compute. repeat split. Qed.
